@@ -363,6 +363,7 @@ VH_TN(long, "long")
 VH_TN(unsigned long, "size_t")
 VH_TN(unsigned char, "uint8")
 VH_TN(unsigned short, "uint16")
+VH_TN(short, "int16")
 #undef VH_TN
 template <typename T>
 inline const char * tn()
